@@ -212,12 +212,11 @@ def run(prog, check):
                  'this generation method (re)defines its own %s, while %s: if that object is processed first its contribution is wiped out'
                  % (e.name.show(), '; '.join(hits[:2])), 'declaring the market before / after this sector')
     # ---- R3: creation order (object IDs) is only ever compared for equality --------------------------------
-    from .C17 import classify_id_use
+    from .C17 import id_uses
     n_id = 0
-    for f in prog.all_functions():
-        for x in ast.walk(f.node):
-            if isinstance(x, ast.Attribute) and x.attr == 'ID' and isinstance(x.ctx, ast.Load):
-                kind, ok = classify_id_use(x, f)
+    for f, x, kind, ok in id_uses(prog):
+        if True:
+            if True:
                 if kind.startswith('equality') or not ok:
                     n_id += 1
                     check.ob('C08.R3', '%s::ID-compare(%s)' % (f.key, kind), ok, '%s:%d' % (f.module.rel, x.lineno),
